@@ -151,7 +151,7 @@ type toolCtx struct {
 	in   []byte
 	desc string
 	mode string   // witness mode ("mp4-tool": in is a whole mp4 file)
-	tags []string // mp4-tool: frame, configuration class, sample class (evidence)
+	tags []string // mp4-tool: frame, configuration class, sample class, table class (evidence)
 }
 
 // Resident-set bound of one tool run: the tools read the whole file and parse
@@ -246,6 +246,7 @@ func (x *toolCtx) oneTool(tr toolRun) {
 			rss = int64(ru.Maxrss) // KiB on Linux
 			c.SetMax("tool_max_rss_kib", rss)
 		}
+		c.SetMax("tool_max_cpu_ms", cpu.Milliseconds())
 	}
 	se := stderr.String()
 	w := &witness{Op: "tool:" + name + " " + strings.Join(tr.args, " "), Input: hexs(x.in), Case: x.desc, Mode: x.mode}
@@ -267,12 +268,19 @@ func (x *toolCtx) oneTool(tr toolRun) {
 		}
 	}
 	c.Seen("tool_exit", fmt.Sprintf("%s exit %d", name, code))
-	if len(x.tags) == 3 {
+	if len(x.tags) == 4 {
 		c.Seen("mp4_tool_exit_by_frame", fmt.Sprintf("%s %s exit %d", name, x.tags[0], code))
-		c.Seen("mp4_tool_exit_by_config_class", fmt.Sprintf("%s %s exit %d", name, x.tags[1], code))
-		c.Seen("mp4_tool_exit_by_sample_class", fmt.Sprintf("%s %s exit %d", name, x.tags[2], code))
-		if x.tags[1] == "valid" && x.tags[2] == "valid" {
-			c.Seen("mp4_tool_exit_on_wellformed_file", fmt.Sprintf("%s %s exit %d", name, x.tags[0], code))
+		if x.tags[3] == "none" {
+			c.Seen("mp4_tool_exit_by_config_class", fmt.Sprintf("%s %s exit %d", name, x.tags[1], code))
+			c.Seen("mp4_tool_exit_by_sample_class", fmt.Sprintf("%s %s exit %d", name, x.tags[2], code))
+			if x.tags[1] == "valid" && x.tags[2] == "valid" {
+				c.Seen("mp4_tool_exit_on_wellformed_file", fmt.Sprintf("%s %s exit %d", name, x.tags[0], code))
+			}
+		} else {
+			c.Seen("mp4_tool_exit_by_table_class", fmt.Sprintf("%s %s exit %d", name, x.tags[3], code))
+			if tc := tblClassByName(x.tags[3]); tc != nil && tc.control {
+				c.Seen("mp4_tool_exit_on_control_table_class", fmt.Sprintf("%s %s %s (record: %s) exit %d", name, x.tags[0], x.tags[3], x.tags[1], code))
+			}
 		}
 	}
 	if code == 0 {
@@ -292,7 +300,8 @@ func (x *toolCtx) oneTool(tr toolRun) {
 	frame, class := crashSite(se)
 	w.Stack = head(se, 3000)
 	key := "es/" + frame + "/" + class
-	if strings.HasPrefix(frame, "main.") || frame == "unknown" {
+	if strings.HasPrefix(frame, "main.") || strings.HasPrefix(frame, "mp4.") || frame == "unknown" {
+		// the tool's own code, or container code (mp4 package) the tool called with the file's tables
 		key = "tool/" + name + "/" + frame + "/" + class
 	}
 	c.Violation(key, fmt.Sprintf("%s %s crashed (exit %d) at %s: %s (case %s)", name, strings.Join(label, " "), code, frame, head(firstLine(se), 200), x.desc), w)
